@@ -133,6 +133,8 @@ Termination == <>Done
 (***************************************************************************)
 Plants == {[cls |-> "regular", code |-> c] : c \in AllCodes} \cup {[cls |-> "regular2", code |-> c] : c \in AllCodes}
           \cup {[cls |-> "test", code |-> "IMM02"], [cls |-> "tdpath", code |-> "CTOR01"], [cls |-> "genpath", code |-> "TONL02"]}
+          \* a _test.go file inside the testdata directory: needs scan-tests *and* a list without testdata
+          \cup {[cls |-> "tdtest", code |-> "IMM03"]}
           \* violations that the source itself suppresses with one `@ignore IMM01, CTOR01` / `@ignore TONL, PKGO02` directive each:
           \* they are invisible under every configuration (excluding one of the codes project-wide does not revive the other)
           \cup {[cls |-> "ignored", code |-> c] : c \in {"IMM01", "CTOR01", "TONL02", "PKGO02"}}
@@ -140,6 +142,7 @@ Plants == {[cls |-> "regular", code |-> c] : c \in AllCodes} \cup {[cls |-> "reg
 Skip(cls, c) == \/ cls = "ignored"
                 \/ cls = "test" /\ ~c.scan
                 \/ cls = "tdpath" /\ "testdata" \in c.paths
+                \/ cls = "tdtest" /\ (~c.scan \/ "testdata" \in c.paths)
                 \/ cls = "genpath" /\ "zzgen" \in c.paths
 Excluded(code, c) == \E t \in c.checks : Matches(t, code)
 Visible(c) == {p \in Plants : ~Skip(p.cls, c) /\ ~Excluded(p.code, c)}
